@@ -1413,7 +1413,8 @@ Proof.
     assert (L : lookup_val (bs_vals ex_state) (KC [67;46;98]) = Some (val_of ex_state (KC [67;46;98]))) by (vm_compute; reflexivity).
     specialize (H _ _ L). change (lookup_rule ex_d3 (KC [67;46;98])) with (RCommand ex_cb) in H. cbv beta iota in H.
     apply H; reflexivity.
-  - eexists. split; [vm_compute; reflexivity|]. vm_compute. split; reflexivity.
+  - exists (write_outputs cat_fn ex_cb (input_contents (bs_world ex_state) (cm_inputs ex_cb)) (cm_outputs ex_cb) 0 (bs_world ex_state)).
+    split; [vm_compute; reflexivity|]. vm_compute. split; reflexivity.
 Qed.
 
 (* src2 turns from an input into a produced node: its rule changes kind and its producer list is no longer empty *)
@@ -1423,3 +1424,17 @@ Example ex_input_becomes_produced :
   node_type ex_src2 = 0 /\ producers ex_d3 ex_src2 = [] /\ producers ex_d4 ex_src2 = [ex_cgen] /\
   lookup_rule ex_d3 (KN ex_src2) = RFileInput ex_src2 /\ lookup_rule ex_d4 (KN ex_src2) = RProduced ex_src2 [ex_cgen].
 Proof. vm_compute. repeat split; reflexivity. Qed.
+
+(* combined forms used by the property file *)
+Lemma virtual_only_rerun F c ins outs j w e1 w1 e2 w2 :
+  outs <> [] -> forallb node_virtual outs = true ->
+  write_outputs F c ins outs j w = w /\ command_result e1 w1 outs = command_result e2 w2 outs.
+Proof.
+  intros Ne Hv. split; [exact (all_virtual_no_write F c ins outs j w Hv) | exact (all_virtual_same_result e1 w1 e2 w2 outs Ne Hv)].
+Qed.
+
+Lemma removed_command d w name v :
+  find_cmd (d_cmds d) name = None -> lookup_rule d (KC name) = RMissingCommand /\ rule_valid d w (KC name) v = Invalid.
+Proof.
+  intros H. split; [exact (removed_command_rule d name H) | exact (missing_command_never_valid d w name v H)].
+Qed.
